@@ -103,10 +103,6 @@ func (b *bootstrapContext) InsertConfig(ctx context.Context, bucketName, groupID
 		// Step 2. Update the registry to add the config
 		// Add database to registry
 		previousVersionConflicts, upsertErr := registry.upsertDatabaseConfig(ctx, groupID, config)
-		if upsertErr != nil {
-			base.InfofCtx(ctx, base.KeyConfig, "InsertConfig unable to update registry: %v", upsertErr)
-			return false, upsertErr, nil
-		}
 
 		// If there are conflicts with previous versions of in-progress database updates, wait for those to complete
 		if len(previousVersionConflicts) > 0 {
@@ -114,7 +110,11 @@ func (b *bootstrapContext) InsertConfig(ctx context.Context, bucketName, groupID
 				return false, err, nil
 			}
 			// try again
-			return true, nil, nil
+			return true, upsertErr, nil
+		}
+		if upsertErr != nil {
+			base.InfofCtx(ctx, base.KeyConfig, "InsertConfig unable to update registry: %v", upsertErr)
+			return false, upsertErr, nil
 		}
 
 		// Persist registry
@@ -191,17 +191,17 @@ func (b *bootstrapContext) UpdateConfig(ctx context.Context, bucketName, groupID
 
 		// Update database in registry
 		previousVersionConflicts, err := registry.upsertDatabaseConfig(ctx, groupID, updatedConfig)
+		// If there are conflicts with previous versions of in-progress database updates, wait for those to complete
+		if len(previousVersionConflicts) > 0 {
+			if waitErr := b.WaitForConflictingUpdates(ctx, bucketName, previousVersionConflicts); waitErr != nil {
+				base.InfofCtx(ctx, base.KeyConfig, "UpdateConfig encountered error while waiting for conflicting updates: %v", waitErr)
+				return false, waitErr, nil
+			}
+			return true, err, nil
+		}
 		if err != nil {
 			base.InfofCtx(ctx, base.KeyConfig, "UpdateConfig encountered error while upserting database config for conflicting updates: %v", err)
 			return false, err, nil
-		}
-		// If there are conflicts with previous versions of in-progress database updates, wait for those to complete
-		if len(previousVersionConflicts) > 0 {
-			if err := b.WaitForConflictingUpdates(ctx, bucketName, previousVersionConflicts); err != nil {
-				base.InfofCtx(ctx, base.KeyConfig, "UpdateConfig encountered error while waiting for conflicting updates: %v", err)
-				return false, err, nil
-			}
-			return true, nil, nil
 		}
 
 		// Persist registry
@@ -1081,6 +1081,19 @@ func (b *bootstrapContext) getRegistryAndDatabase(ctx context.Context, bucketNam
 					// ReloadRegistry is returned by getDatabaseConfig immediately if the config version is greater than version found in the registry.
 					// We want to restart to pick up the latest registry
 					continue
+				}
+				// A previous version alongside a config matching the registry's current version is an update whose
+				// finalize step did not run (e.g. node failure after the config was written). Complete it, so the
+				// collections of the previous version don't stay reserved.
+				if err == nil && registryDb.PreviousVersion != nil {
+					if removeErr := registry.removePreviousVersion(groupID, dbName, registryDb.PreviousVersion.Version); removeErr == nil {
+						writeErr := b.setGatewayRegistry(ctx, bucketName, registry)
+						if base.IsCasMismatch(writeErr) {
+							continue
+						} else if writeErr != nil {
+							return nil, nil, writeErr
+						}
+					}
 				}
 			} else if registryDb.PreviousVersion != nil {
 				// Previous Version without current version represents in-progress delete.  Wait for delete to complete
